@@ -209,7 +209,9 @@ class DistributedNetwork(BaseManager):
         """
         # Explicit None checks because we can get 0 as branch level
         if peer.branch_level is not None and peer.branch_root is not None:
-            if not self.parent:
+            if peer in self.children:
+                await peer.connection.disconnect(reason=CloseReason.REQUESTED)
+            elif not self.parent:
                 await self._set_parent(peer)
             else:
                 await peer.connection.disconnect(reason=CloseReason.REQUESTED)
